@@ -147,7 +147,9 @@ func (c *Ctx) matchKnown(f *Finding) string {
 			continue
 		}
 		if m, ok := knownMatchers[e.ID]; ok && m(f) {
+			c.mu.Lock()
 			c.knownDesc[e.ID] = e.Desc
+			c.mu.Unlock()
 			return e.ID
 		}
 	}
